@@ -111,6 +111,11 @@ pub trait Model: Sync {
     fn apply(&self, s: &mut Self::S, ev: &Self::Ev, check: bool, out: &mut Out) -> bool;
     /// State oracles.
     fn check(&self, s: &mut Self::S, hist: &[Self::Ev], out: &mut Out);
+    /// Key for duplicate detection: two states with equal keys must have the same futures
+    /// (complete logical state, monitor state and remaining budgets). None = no merging.
+    fn key(&self, _s: &Self::S, _hist: &[Self::Ev]) -> Option<u128> {
+        None
+    }
     /// A sample description of a finished history (observations included).
     fn sample(&self, _s: &mut Self::S, hist: &[Self::Ev]) -> Value {
         json!({ "history": hist })
@@ -143,11 +148,31 @@ fn hist_json<E: Serialize>(h: &[E]) -> Value {
     serde_json::to_value(h).unwrap_or(Value::Null)
 }
 
+pub struct Visited {
+    shards: Vec<Mutex<HashSet<u128>>>,
+}
+
+impl Visited {
+    pub fn new() -> Self {
+        Visited {
+            shards: (0..256).map(|_| Mutex::new(HashSet::new())).collect(),
+        }
+    }
+    /// true if the key was new
+    pub fn insert(&self, k: u128) -> bool {
+        self.shards[(k as usize) & 255].lock().unwrap().insert(k)
+    }
+    pub fn len(&self) -> usize {
+        self.shards.iter().map(|s| s.lock().unwrap().len()).sum()
+    }
+}
+
 struct Walker<'a, M: Model> {
     m: &'a M,
     out: Out,
     stop: &'a AtomicBool,
     deadline: Option<Instant>,
+    visited: &'a Visited,
 }
 
 impl<'a, M: Model> Walker<'a, M> {
@@ -163,13 +188,20 @@ impl<'a, M: Model> Walker<'a, M> {
     }
 
     /// `s` is at `hist` and has not been checked yet.
-    fn dfs(&mut self, mut s: M::S, hist: &mut Vec<M::Ev>, stop_depth: Option<usize>, frontier: &mut Vec<Vec<M::Ev>>) {
+    fn dfs(&mut self, mut s: M::S, hist: &mut Vec<M::Ev>, stop_depth: Option<usize>, frontier: &mut Vec<Vec<M::Ev>>, resumed: bool) {
         if self.stop.load(Ordering::Relaxed) {
             return;
         }
         if let Some(d) = self.deadline {
             if Instant::now() > d {
                 self.stop.store(true, Ordering::Relaxed);
+                return;
+            }
+        }
+        // a resumed frontier state was registered as visited when it was put on the frontier
+        if let (false, Some(k)) = (resumed, self.m.key(&s, hist)) {
+            if !self.visited.insert(k) {
+                self.out.count("engine_merged_into_visited_state");
                 return;
             }
         }
@@ -212,7 +244,7 @@ impl<'a, M: Model> Walker<'a, M> {
             self.out.transitions += 1;
             let alive = self.m.apply(&mut st, ev, true, &mut self.out);
             if alive {
-                self.dfs(st, hist, stop_depth, frontier);
+                self.dfs(st, hist, stop_depth, frontier, false);
             } else {
                 self.out.leaves += 1;
             }
@@ -225,6 +257,7 @@ impl<'a, M: Model> Walker<'a, M> {
 pub fn explore<M: Model>(m: &M, lim: &Limits) -> Explored {
     let t0 = Instant::now();
     let stop = AtomicBool::new(false);
+    let visited = Visited::new();
     // phase 1: prefixes up to split_depth on this thread
     let mut frontier: Vec<Vec<M::Ev>> = vec![];
     let mut w = Walker {
@@ -232,10 +265,11 @@ pub fn explore<M: Model>(m: &M, lim: &Limits) -> Explored {
         out: Out::default(),
         stop: &stop,
         deadline: lim.deadline,
+        visited: &visited,
     };
     let s0 = m.init();
     let mut hist = vec![];
-    w.dfs(s0, &mut hist, Some(lim.split_depth), &mut frontier);
+    w.dfs(s0, &mut hist, Some(lim.split_depth), &mut frontier, false);
     let mut total = w.out;
     // phase 2: subtrees in parallel
     let next = AtomicUsize::new(0);
@@ -248,6 +282,7 @@ pub fn explore<M: Model>(m: &M, lim: &Limits) -> Explored {
                     out: Out::default(),
                     stop: &stop,
                     deadline: lim.deadline,
+                    visited: &visited,
                 };
                 loop {
                     let i = next.fetch_add(1, Ordering::Relaxed);
@@ -258,7 +293,7 @@ pub fn explore<M: Model>(m: &M, lim: &Limits) -> Explored {
                     match w.replay(&hist) {
                         Some(s) => {
                             let mut f = vec![];
-                            w.dfs(s, &mut hist, None, &mut f);
+                            w.dfs(s, &mut hist, None, &mut f, true);
                         }
                         None => w.out.violation(
                             "machinery:replay-diverged",
